@@ -88,6 +88,12 @@ func clex(src string) ([]ctok, error) {
 			for j < len(src) && (unicode.IsLetter(rune(src[j])) || unicode.IsDigit(rune(src[j])) || src[j] == '_') {
 				j++
 			}
+			if j+1 < len(src) && src[j] == '#' && unicode.IsDigit(rune(src[j+1])) {
+				j++
+				for j < len(src) && unicode.IsDigit(rune(src[j])) {
+					j++
+				}
+			}
 			toks = append(toks, ctok{"id", src[i:j]})
 			i = j
 			continue
